@@ -7,8 +7,8 @@ from ..engine import fresh_int
 from ..oread import read_smiles
 from ..symstr import make_slots
 
-KIND = ["c", "n", "o", "s", "[nH]", "[n+]", "c(C)", "n(C)", "c(=O)", "[cH]", "[n]", "[c]", "s(=O)", "p"]
-KINDQ = ["c", "n", "o", "[nH]", "[n+]", "c(=O)", "[n]"]
+KIND = ["c", "n", "o", "s", "[nH]", "[n+]", "c(C)", "n(C)", "c(=O)", "[cH]", "[n]", "[c]", "s(=O)", "p", "p(=O)(C)"]
+KINDQ = ["c", "n", "o", "[nH]", "[n+]", "c(=O)", "[n]", "s(=O)"]
 TOK5 = ["c", "n", "o", "s", "p", "[nH]", "[n+]", "[c-]", "[cH]", "C", "N", "=", "(", ")", "1", "2", ":"]
 BASES = [
     "c1ccccc1", "c1ccc2ccccc2c1", "c1ccc2[nH]ccc2c1", "c1ccc2ncccc2c1", "c1cc2ccc3cccc4ccc(c1)c2c34",
@@ -59,11 +59,11 @@ def run(rep, tier, seed, budget):
         plan.append(("aromatic SMILES of N=%d tokens" % n, lambda n=n: make_slots("s", [TOK5] * n), {"tokens": TOK5, "N_tokens": n}))
     # monocycles with every ring atom's kind a slot
     plan.append(("5-membered ring, every atom kind free", lambda: make_slots("s", [["c1", "n1", "o1", "[nH]1", "[n]1"], K, K, K, K, "1"]), {"ring": 5, "kinds": K}))
-    K6 = ["c", "n", "[nH]", "o", "[n]"] if quick else K
+    K6 = ["c", "n", "[nH]", "s(=O)", "[n]"] if quick else K
     plan.append(("6-membered ring, every atom kind free", lambda: make_slots("s", [["c1", "n1", "[n+]1"], K6, K6, K6, K6, K6, "1"]), {"ring": 6, "kinds": K6}))
     if not quick:
         plan.append(("7-membered ring, every atom kind free", lambda: make_slots("s", [["c1", "n1", "o1"], K, K, K, K, K, K, "1"]), {"ring": 7, "kinds": K}))
-    K2 = ["c", "n", "[nH]", "o", "[n]"] if quick else ["c", "n", "[nH]", "o", "s", "[n+]", "[n]"]
+    K2 = ["c", "n", "[nH]", "s(=O)", "[n]"] if quick else ["c", "n", "[nH]", "o", "s", "[n+]", "[n]"]
     # fused 5-6 (indole-like), 6-6, 5-5, 5-7: selected positions free
     F56 = ["c1", K2, K2, "c2", K2, K2, "c", "c2", K2, "1"] if quick else ["c1", K2, K2, "c2", K2, K2, K2, "c2", K2, "1"]
     plan.append(("fused 5-6 system, five / six positions free", lambda: make_slots("s", F56), {"skeleton": "c1??c2??(c|?)c2?1", "kinds": K2}))
